@@ -405,6 +405,7 @@ def main(prop):
                             break
             if prop == "C07" or (prop == "C18" and it % 3 == 0):
                 complete_check(ck, gtext, order, with_seq, res, tmp, replay)
+                command_check(ck, prop, gtext, tok, order, with_seq, res, r, tmp, replay, default_order)
             if prop == "C18" and any(broken.values()):
                 # a request that names only chromosomes that cannot be ordered: nothing is written, the command still completes,
                 # with and without --by-chrom
@@ -561,6 +562,85 @@ def complete_check(ck, gtext, order, with_seq, res, tmp, replay):
     exp_csv = [l for c in written for l in res["csv"][c].splitlines()]
     if resc["csv"].get("complete", "").splitlines() != exp_csv:
         ck.violation("the -complete CSV is not the per-chromosome CSVs concatenated", replay)
+
+
+def command_check(ck, prop, gtext, tok, order, with_seq, res, r, tmp, replay, default_order):
+    """the model of the whole command (Order.orderCommand: request resolution, CSV rows, -complete files) against the tool, and the
+    CSV / complete-file specifications (Spec.Order.specCsv, specComplete) evaluated on the tool's own files"""
+    rng = ck.rng
+    few = {sp["name"] for sp in r["spec"] if sp["aps"] < 2 and not sp.get("single_node")}
+    written = [c for c in order if c in res["files"]]
+    impl_csv = []
+    for c in written:
+        rows = [l.split(",") for l in res["csv"].get(c, "").splitlines()]
+        impl_csv.append({"name": c, "rows": rows, "out": tokenize_gfa(res["files"][c])})
+    resc = run_order(gtext, order, with_seq, False, tmp, default_order=default_order)
+    comp_tok = tokenize_gfa(resc["files"]["complete"]) if resc["outcome"] == "ok" and "complete" in resc.get("files", {}) else None
+    option = "" if default_order else ",".join(order)
+    m = ck.driver([{"op": "order.command", "gfa": tok, "option": option, "with_seq": with_seq, "impl_csv": impl_csv, "impl_complete": comp_tok}])[0]
+    ck.count("command-model-compared")
+    if m.get("resolved") is None or "crash" in m:
+        ck.disagreement("the model rejects / crashes on a request the tool accepts", dict(replay, model=m))
+        return
+    for name, ok in m["csv_spec"]:
+        if not ok and prop == "C07":
+            ck.violation("CSV of %s does not list every node of the component exactly once with its role, SN/SO and the BO/NO of the GFA file" % name,
+                         dict(replay, chromosome=name, csv=res["csv"].get(name)))
+            return
+    if comp_tok is not None and m["complete_spec"] is False and not (few & set(written)) and prop == "C07":
+        ck.violation("the -complete GFA is not: S lines of the ordered chromosomes in request order, in increasing (BO, NO) order over the whole file, then their L lines",
+                     dict(replay, complete=resc["files"]["complete"][:3000]))
+        return
+    mcsv = {x["name"]: x["rows"] for x in m["csv"]}
+    for x in impl_csv:
+        if x["name"] in few:
+            continue
+        if mcsv.get(x["name"]) != x["rows"]:
+            ck.disagreement("the CSV of %s differs from the model's (orderCsv)" % x["name"], dict(replay, chromosome=x["name"], impl=x["rows"][:8], model=(mcsv.get(x["name"]) or [])[:8]))
+            return
+    if comp_tok is not None and not (few & set(written)):
+        isegs = [[sg["id"], sg["seq"], [":".join(tg) for tg in sg["tags"]]] for sg in comp_tok["segs"]]
+        ilinks = sorted([l["a"], l["da"], l["b"], l["db"], l["ov"], list(l["tags"])] for l in comp_tok["links"])
+        if isegs != m["complete"]["segs"] or ilinks != sorted(list(l) for l in m["complete"]["links"]):
+            ck.disagreement("the -complete GFA differs from the model's (completeGfa)", dict(replay, impl_segs=isegs[:8], model_segs=m["complete"]["segs"][:8]))
+            return
+        ccsv = [l.split(",") for l in resc["csv"].get("complete", "").splitlines()]
+        if ccsv != m["complete_csv"]:
+            ck.disagreement("the -complete CSV differs from the model's (completeCsv)", dict(replay, impl=ccsv[:8], model=m["complete_csv"][:8]))
+            return
+    # requests the command must refuse before writing anything: an unknown chromosome name; no --chromosome_order although the
+    # components are not the 25 default chromosomes
+    if rng.random() < 0.5 and not default_order:
+        names = m["names"]
+        kind = rng.choice(["unknown-name", "default-mismatch", "empty-name"])
+        if kind == "unknown-name":
+            bad = order[:]
+            bad.insert(rng.randint(0, len(bad)), rng.choice(["chrZZ", "chr", order[0] + "x", order[0].upper() if order[0].upper() != order[0] else "q"]))
+            opt = ",".join(bad)
+        elif kind == "empty-name":
+            opt = ",".join(order) + ","
+        else:
+            opt = ""
+        mm = ck.driver([{"op": "order.command", "gfa": tok, "option": opt, "with_seq": with_seq, "impl_csv": None, "impl_complete": None}])[0]
+        from gaftools.cli import order_gfa
+        src = os.path.join(tmp, "bad.gfa")
+        gen.write_text(src, gtext)
+        out = os.path.join(tmp, "bad_out")
+        shutil.rmtree(out, ignore_errors=True)
+        try:
+            with watchdog(120):
+                order_gfa.run_order_gfa(src, out, by_chrom=True, chromosome_order=opt, with_sequence=with_seq)
+            outcome = "accepted"
+        except SystemExit as e:
+            outcome = "rejected" if e.code not in (0, None) else "exit0"
+        except BaseException as e:  # noqa
+            outcome = "crash:" + type(e).__name__
+        wrote = [f for f in glob.glob(os.path.join(out, "*")) if os.path.getsize(f) > 0]
+        ck.count("bad-request:%s" % kind)
+        model_rejects = mm.get("resolved") is None
+        if model_rejects != (outcome == "rejected") or (outcome == "rejected" and wrote):
+            ck.disagreement("request %r: the tool %s%s, the model %s" % (opt, outcome, " after writing files" if wrote else "", "rejects" if model_rejects else "accepts"),
+                            dict(replay, option=opt, names=names))
 
 
 def roundtrip_io(ck, tmp, n):
